@@ -293,6 +293,45 @@ def _variant_of_value_term(t):
     return None
 
 
+def _wire_payload(p, wire):
+    """p is the payload of the input's `wire` variant itself, its checked narrowing, or the registry entry found for it"""
+    from lib.prov import strip_sites
+    p = strip_sites(p)
+    P0 = ("param", 0)
+    LBL = ("tryok", ("call", "<common::Label as common::AsCborValue>::from_cbor_value", (P0,)))
+    raw = ("field", ("variant", P0, wire), "0")
+    via = ("field", ("variant", LBL, {"Integer": "Int", "Text": "Text"}.get(wire, wire)), "0")
+    narrowed = [("tryok", ("call", "core::convert::TryInto::try_into", (raw,))),
+                ("field", ("variant", ("call", "core::convert::TryInto::try_into", (raw,)), "Ok"), "0"), via]
+    if p in (raw, via) or p in narrowed:
+        return True
+    if p[0] == "field" and p[2] == "0" and p[1][0] == "variant" and p[1][2] == "Some" and is_call(p[1][1], "iana::EnumI64::from_i64"):
+        return p[1][1][2][0] in narrowed
+    return False
+
+
+def _own_payload(term, variant):
+    """the encoder arm for `variant` writes that variant's own payload: as it is, or through the lossless std conversions / to_i64"""
+    from lib.prov import strip_sites
+    t = strip_sites(term)
+    own = ("field", ("variant", ("param", 0), variant), "0")
+
+    def conv(x):
+        if x == own:
+            return True
+        if is_call(x) and x[1] in ("core::convert::From::from", "core::convert::Into::into") and len(x[2]) == 1:
+            return conv(x[2][0])
+        if is_call(x, "iana::EnumI64::to_i64") and len(x[2]) == 1:
+            a = x[2][0]
+            while a[0] == "ref":
+                a = a[1]
+            return a == own
+        return False
+    if t[0] == "aggr" and t[1] == "ciborium::value::Value" and len(t[3]) == 1:
+        return conv(t[3][0][1])
+    return conv(t)
+
+
 def _enum_pair(ctx, ty):
     prog = ctx.prog
     d = prog.fn("<%s as common::AsCborValue>::from_cbor_value" % ty)
@@ -300,6 +339,7 @@ def _enum_pair(ctx, ty):
     pd, pe = Prov(d), Prov(e)
     self_adt = ty.split("<")[0]
     dec = {}
+    payload_problems = []
     for o in outcomes(d, pd):
         if o["kind"] != "ok":
             continue
@@ -314,6 +354,8 @@ def _enum_pair(ctx, ty):
         inner = o["inner"]
         if src and len(src) == 1 and inner[0] == "aggr" and inner[1] == self_adt:
             dec.setdefault(next(iter(src)), set()).add(inner[2])
+            if inner[3] and not _wire_payload(inner[3][0][1], next(iter(src))):
+                payload_problems.append("decoder: the payload of %s is %s, not the wire payload (converted exactly)" % (inner[2], show(inner[3][0][1])[:90]))
     enc = {}
     multi = []
     oks = [o for o in outcomes(e, pe) if o["kind"] == "ok"]
@@ -325,12 +367,14 @@ def _enum_pair(ctx, ty):
             wv = _variant_of_value_term(term)
             if sv and len(sv) == 1 and wv:
                 v = next(iter(sv))
+                if not _own_payload(term, v):
+                    payload_problems.append("encoder: %s is written as %s, not its own payload (converted exactly)" % (v, show(term)[:90]))
                 if v in enc and enc[v] != wv:
                     multi.append("variant %s is encoded as %s or %s depending on its value" % (v, enc[v], wv))
                 enc[v] = wv
             else:
                 multi.append("encoder arm not selected by a single variant: %s" % show(term)[:60])
-    problems = list(multi)
+    problems = list(multi) + payload_problems
     for wire, outs in dec.items():
         for v in outs:
             if enc.get(v) != wire:
